@@ -37,6 +37,30 @@ pub trait VRead {
                 Err(_) => true,
             };
 }
+/// further std::io::Read forms used by the cpio reader (src/rpm/payload.rs)
+pub trait VReadExt: VRead {
+    /// R17': `self.read(&mut buf[..limit])` - precondition = no-panic of the slicing.  std `read`
+    /// delivers some n <= limit of the next bytes (n = 0 only at end of stream or for limit 0).
+    fn read_limited(&mut self, buf: &mut [u8], limit: usize) -> (r: Result<usize, Error>)
+        requires limit <= old(buf)@.len(),
+        ensures
+            final(buf)@.len() == old(buf)@.len(),
+            match r {
+                Ok(n) => n <= limit && n <= old(self).remaining().len()
+                    && final(buf)@.subrange(0, n as int) == old(self).remaining().subrange(0, n as int)
+                    && final(self).remaining() == old(self).remaining().subrange(n as int, old(self).remaining().len() as int)
+                    && ((limit > 0 && old(self).remaining().len() > 0) ==> n > 0),
+                Err(_) => true,
+            };
+    /// R16': `io::copy(&mut self.by_ref().take(n), &mut io::sink())` - discards min(n, |rest|) bytes
+    fn skip_n(&mut self, n: u64) -> (r: Result<u64, Error>)
+        ensures
+            match r {
+                Ok(k) => k == (if n <= old(self).remaining().len() { n as int } else { old(self).remaining().len() as int })
+                    && final(self).remaining() == old(self).remaining().subrange(k as int, old(self).remaining().len() as int),
+                Err(_) => true,
+            };
+}
 /// R9: `Vec::from(slice)` (Verus cannot name the std impl's signature)
 #[verifier::external_body]
 pub fn slice_to_vec(s: &[u8]) -> (r: Vec<u8>)
@@ -62,10 +86,26 @@ pub proof fn lemma_be32_dec32(s: Seq<u8>)
     requires s.len() == 4,
     ensures be32(dec32(s)) == s, be32(i32_bits(bits_i32(dec32(s)))) == s,
 {
-    let x = dec32(s);
-    assert(x == s[0] as int * 0x1000000 + s[1] as int * 0x10000 + s[2] as int * 0x100 + s[3] as int);
-    assert(be32(x) =~= s);
-    assert(i32_bits(bits_i32(x)) == x);
+    let a = s[0] as int;
+    let b = s[1] as int;
+    let c = s[2] as int;
+    let d = s[3] as int;
+    let x = dec32(s) as int;
+    assert(x == a * 0x1000000 + b * 0x10000 + c * 0x100 + d);
+    // peel the bytes off one at a time with the fundamental div/mod lemma (no solver search)
+    vstd::arithmetic::div_mod::lemma_fundamental_div_mod_converse(x, 0x100, a * 0x10000 + b * 0x100 + c, d);
+    let x1 = x / 0x100;
+    vstd::arithmetic::div_mod::lemma_fundamental_div_mod_converse(x1, 0x100, a * 0x100 + b, c);
+    let x2 = x1 / 0x100;
+    vstd::arithmetic::div_mod::lemma_fundamental_div_mod_converse(x2, 0x100, a, b);
+    vstd::arithmetic::div_mod::lemma_fundamental_div_mod_converse(x, 0x10000, a * 0x100 + b, c * 0x100 + d);
+    vstd::arithmetic::div_mod::lemma_fundamental_div_mod_converse(x, 0x1000000, a, b * 0x10000 + c * 0x100 + d);
+    assert(x / 0x1000000 == a);
+    assert((x / 0x10000) % 0x100 == b);
+    assert((x / 0x100) % 0x100 == c);
+    assert(x % 0x100 == d);
+    assert(be32(dec32(s)) =~= s);
+    assert(i32_bits(bits_i32(dec32(s))) == dec32(s));
 }
 pub proof fn lemma_be16_dec16(s: Seq<u8>)
     requires s.len() == 2,
